@@ -311,6 +311,64 @@ def run_columns(ctx):
                 break
         else:
             st["ok"] += len(rows)
+    # file capabilities: the column and the two functions against getcap (the kernel's view through libcap's own tool)
+    import shutil as _sh
+    import subprocess as _sp
+    if _sh.which("setcap") and _sh.which("getcap"):
+        CAPS = ["cap_chown", "cap_dac_override", "cap_dac_read_search", "cap_fowner", "cap_fsetid", "cap_kill", "cap_setgid", "cap_setuid", "cap_setpcap", "cap_linux_immutable", "cap_net_bind_service",
+                "cap_net_broadcast", "cap_net_admin", "cap_net_raw", "cap_ipc_lock", "cap_ipc_owner", "cap_sys_module", "cap_sys_rawio", "cap_sys_chroot", "cap_sys_ptrace", "cap_sys_pacct", "cap_sys_admin",
+                "cap_sys_boot", "cap_sys_nice", "cap_sys_resource", "cap_sys_time", "cap_sys_tty_config", "cap_mknod", "cap_lease", "cap_audit_write", "cap_audit_control", "cap_setfcap", "cap_mac_override",
+                "cap_mac_admin", "cap_syslog", "cap_wake_alarm", "cap_block_suspend", "cap_audit_read", "cap_perfmon", "cap_bpf", "cap_checkpoint_restore"]
+        FLAGS = ["p", "ep", "ei", "eip", "i", "ip"]
+        capd = os.path.join(ctx.scratch, "capdir")
+        os.mkdir(capd)
+        combos = [(c_, f_) for c_ in CAPS for f_ in FLAGS]
+        if ctx.tier == "quick":
+            combos = rng.sample(combos, 24)
+        made = {}
+        for i_, (c_, f_) in enumerate(combos):
+            fn = os.path.join(capd, "c%03d" % i_)
+            open(fn, "w").close()
+            spec = "%s+%s" % (c_, f_)
+            if i_ % 5 == 4:
+                c2 = rng.choice([x for x in CAPS if x != c_])
+                spec = "%s,%s+%s" % (c_, c2, f_)
+            if _sp.run(["setcap", spec, fn], stdout=_sp.PIPE, stderr=_sp.PIPE).returncode == 0:
+                made[os.path.basename(fn)] = spec
+        open(os.path.join(capd, "plain"), "w").close()
+
+        def capset(text):
+            out = {}
+            for grp in text.split():
+                m_ = re.match(r"^([a-z_,0-9]+)[=+]([eip]+)$", grp)
+                if not m_:
+                    return None
+                for nm_ in m_.group(1).split(","):
+                    out[nm_] = "".join(sorted(m_.group(2)))
+            return out
+
+        import re
+        gc = _sp.run(["getcap", "-r", capd], stdout=_sp.PIPE).stdout.decode()
+        want = {}
+        for line in gc.splitlines():
+            pth, _, txt = line.partition(" ")
+            want[os.path.basename(pth)] = capset(txt.strip().lstrip("= "))
+        probe = rng.choice(CAPS)
+        rows, r = qlib.select(ctx.impl, "name, capabilities, has_capabilities(), has_capability('%s')" % probe, "from capdir", cwd=ctx.scratch)
+        st["n"] += 1
+        if rows is None:
+            ctx.violation("impl-violates-spec", "capabilities query failed: %r" % r["stderr"][:200], input={"query": r["query"]})
+        else:
+            for nm, capstxt, hasany, hasp in rows:
+                exp = want.get(nm, {})
+                got = capset(capstxt) if capstxt else {}
+                if got != exp or hasany != ("true" if exp else "false") or (exp and hasp != ("true" if probe in exp else "false")):
+                    ctx.violation("impl-violates-spec", "capabilities of %s (setcap %s): column %r, has_capabilities %s, has_capability(%s) %s; getcap says %s" % (nm, made.get(nm), capstxt, hasany, probe, hasp, exp),
+                                  input={"query": r["query"], "setcap": made.get(nm)})
+                    break
+            else:
+                st["ok"] += len(rows)
+                st["capability_files"] = len(made)
     # correspondence: the same verdicts from util::has_extension and the default lists as regenerated from the source (gen/ExtGen.v)
     from .common import coq_eval, gstr, glist, parse_nested
     obs = [o for o in st.get("ext_obs", []) if all(ord(c) < 0x110000 for c in o[0])]
@@ -354,8 +412,8 @@ def run(ctx):
             ctx.proof_failure = "coqchk failed: " + out[-500:]
     m = run_modes(ctx)
     c = run_columns(ctx)
-    ctx.coverage["columns_part"] = dict(queries=c["n"], entries_checked=c["ok"], extension_verdicts_equal_to_regenerated_has_extension=c.get("ext_model_agreed", 0), distinct_entries=len(c["distinct"]), samples=c["samples"],
-                                        rule="random trees (files with contents: empty, shebang, no trailing newline, binary, > 64 KiB, 9000 newlines; mtimes incl. 0 and 2038+; owners without a name; xattrs; sockets; links incl. dangling; dot-files, several dots, upper-case extensions) - columns path,name,ext,dir,abspath,absdir,size,uid,gid,user,group,inode,hardlinks,blocks,modified,is_hidden,is_empty, the eight extension classes (default lists read from config.rs, and a configuration file overriding every list with plain, compound and dot-less endings), sha1/sha256/sha512/sha3, line_count, is_shebang, has_xattrs, CONTAINS(s) with needles inside a line and across line breaks compared with os.lstat, pwd/grp, hashlib and the directory contents")
+    ctx.coverage["columns_part"] = dict(queries=c["n"], entries_checked=c["ok"], files_with_capabilities_checked_against_getcap=c.get("capability_files", 0), extension_verdicts_equal_to_regenerated_has_extension=c.get("ext_model_agreed", 0), distinct_entries=len(c["distinct"]), samples=c["samples"],
+                                        rule="random trees (files with contents: empty, shebang, no trailing newline, binary, > 64 KiB, 9000 newlines; mtimes incl. 0 and 2038+; owners without a name; xattrs; sockets; links incl. dangling; dot-files, several dots, upper-case extensions) - columns path,name,ext,dir,abspath,absdir,size,uid,gid,user,group,inode,hardlinks,blocks,modified,is_hidden,is_empty, the eight extension classes (default lists read from config.rs, and a configuration file overriding every list with plain, compound and dot-less endings), sha1/sha256/sha512/sha3, line_count, is_shebang, has_xattrs, capabilities / has_capabilities() / has_capability(c) for the 41 Linux capabilities x flag combinations against getcap, CONTAINS(s) with needles inside a line and across line breaks compared with os.lstat, pwd/grp, hashlib and the directory contents")
     ctx.coverage.update(
         evaluations=m["evaluations"] + c["ok"], distinct_nontrivial=m["distinct"] + len(c["distinct"]),
         traces_validated_against_impl=m["agreed"],
